@@ -203,6 +203,12 @@ def div(a, b):
         if a.op == "const":
             return mk("const", (cval(a) / cval(b),), R)
         return mul(mk("const", (1 / cval(b),), R), a)
+    if a is b:
+        return mk("const", (Fraction(1),), R)  # b != 0 is a separate well-definedness obligation
+    if a.op == "*" and b.op != "*" and b in a.args:
+        rest = list(a.args)
+        rest.remove(b)
+        return mul(*rest)
     return mk("/", (a, b), R)
 
 
